@@ -125,8 +125,8 @@ PROPS["C09"] = dict(
 
 PROPS["C17"] = dict(
     level="other", claimed=True, verus=True,
-    technique="contract-based deductive verification for the two integer-level building blocks within reach (Verus on the extracted bodies of TransitionConstraints::new and ConstraintDivisor::evaluate_at); everything else - the evaluators, the periodic table, boundary groups, the composition polynomial itself - is a bounded stand-in only: the real functions executed natively over an enumerated space and compared with the definition written in the check",
-    level_text="Verus (unit divisorv, bodies cut out of /repo): TransitionConstraints::new hands the composition coefficients out in order (main constraints first, then auxiliary), keeps the context degrees and builds the divisor of the context exemption count, for every number of constraints; ConstraintDivisor::evaluate_at is the in-order product of the numerator terms over the exemption product. Everything else is a bounded stand-in (native execution of the real constraint evaluator and composition-polynomial code against "
+    technique="contract-based deductive verification for the integer-level building blocks within reach (Verus on the extracted bodies of TransitionConstraints::new, ConstraintDivisor::evaluate_at, AirContext::num_constraint_composition_columns and TransitionConstraintDegree::get_evaluation_degree); everything else - the evaluators, the periodic table, boundary groups, the composition polynomial itself - is a bounded stand-in only: the real functions executed natively over an enumerated space and compared with the definition written in the check",
+    level_text="Verus (unit divisorv, bodies cut out of /repo): TransitionConstraints::new hands the composition coefficients out in order (main constraints first, then auxiliary), keeps the context degrees and builds the divisor of the context exemption count, for every number of constraints; ConstraintDivisor::evaluate_at is the in-order product of the numerator terms over the exemption product; Verus (unit contextv): the number of composition columns is the least c >= 1 with c * n >= d + 1 for d the degree of the quotient by the transition divisor, for every trace length, degree list and exemption count (no coefficient of the composition polynomial is cut off, no column is surplus). Everything else is a bounded stand-in (native execution of the real constraint evaluator and composition-polynomial code against "
                "the definition computed directly in the check from the trace polynomials, the constraint formulas, the documented "
                "divisors and naively interpolated value polynomials). No deductive contract: the evaluator, periodic table and "
                "boundary groups are generic over a user Air with iterator-heavy bodies, and the statement is an identity over "
